@@ -189,10 +189,12 @@ func (e Envelope) Center() Point {
 	if e.IsEmpty() {
 		return Point{}
 	}
-	return e.min.
-		Add(e.max).
-		Scale(0.5).
-		AsPoint()
+	c := e.min.Add(e.max).Scale(0.5)
+	if math.IsInf(c.X, 0) || math.IsInf(c.Y, 0) {
+		// min+max overflowed although the midpoint is representable: halve first.
+		c = e.min.Scale(0.5).Add(e.max.Scale(0.5))
+	}
+	return c.AsPoint()
 }
 
 // Covers returns true if and only if this envelope entirely covers another
